@@ -35,7 +35,7 @@ ASSUMPTIONS = [
     "sections of HeaderItems built by up to the stated number of append/insert operations with symbolic names, positions and case-normalisation flag",
     "probe keys: every string up to 3 characters over 'Aa:1 ', every integer in [-n-1, n], every slice with bounds in [-n-1, n+1]",
 ]
-WITNESS_TARGETS = ["key-present", "key-absent", "match-by-case-only", "section-of-curve-items"]
+WITNESS_TARGETS = ["key-present", "key-absent", "match-by-case-only", "section-of-curve-items", "two-items-share-a-session-name-after-a-rename"]
 EXCLUSIONS = {}
 
 
@@ -72,8 +72,9 @@ def harness(ns, params):
         pos = [fresh_int("pos%d" % t, 0, t) for t in range(k)]
         ia = fresh_int("ia", -k - 1, k + 1)
         ib = fresh_int("ib", -k - 1, k + 1)
+        rn = fresh_bool("rename_last_to_first")
         cvs = fresh_bool("curve_section")  # a section of CurveItems carrying float64 arrays (get() builds its default from the first one)
-        inputs = {"probe": probe, "names": names, "pos": pos, "transforms": tr, "key": key, "ia": ia, "ib": ib, "curve_section": cvs}
+        inputs = {"probe": probe, "names": names, "pos": pos, "transforms": tr, "key": key, "ia": ia, "ib": ib, "curve_section": cvs, "rename_last_to_first": rn}
         c = core.ctx()
         c.inputs = inputs
         apply_exclusions(inputs)
@@ -87,6 +88,11 @@ def harness(ns, params):
             s.mnemonic_transforms = True
         for t in range(k):
             s.insert(pos[t], ns.items.CurveItem(names[t], value="v%d" % t, data=item_data(t)) if cvz else HeaderItem(names[t], value="v%d" % t))
+        if k >= 2 and bool(rn):
+            # renaming an item in place to the name of another one: two items then share a session name (no renumbering
+            # happens on attribute assignment) - lookups and deletion must still agree on the first of them
+            list.__getitem__(s, k - 1).mnemonic = list.__getitem__(s, 0).original_mnemonic
+            core.witness("two-items-share-a-session-name-after-a-rename")
         items = list(list.__iter__(s))
         sess = [SymStr.lift(it.mnemonic) for it in items]
         snap = [(it, it.mnemonic, it.original_mnemonic, it.unit, it.value, it.descr) for it in items]
@@ -231,6 +237,8 @@ def replay(i):
     cvz = bool(i.get("curve_section"))
     for t, nm in enumerate(names):
         s.insert(pos[t], lasio.CurveItem(nm, value="v%d" % t, data=item_data(t)) if cvz else lasio.HeaderItem(nm, value="v%d" % t))
+    if len(names) >= 2 and i.get("rename_last_to_first"):
+        list.__getitem__(s, len(names) - 1).mnemonic = list.__getitem__(s, 0).original_mnemonic
     items = list(list.__iter__(s))
     datas = [np.array(it.data, copy=True) if cvz else None for it in items]
     sess = [it.mnemonic for it in items]
